@@ -127,3 +127,14 @@ Definition src_refinalize : srcp := src_tree <| retry_refinalizes := true |>.
 Lemma witness_refinalize : g_fin_bad (summ src_refinalize cfg_pertry sched_pertry) = true /\ g_fin_bad (summ src_tree cfg_pertry sched_pertry) = false /\
   g_new (summ src_tree cfg_pertry sched_pertry) = 2%nat.
 Proof. vm_compute. repeat split; reflexivity. Qed.
+
+(* sendHijackReply that leaves a stored response body in place (switch set back): the upstream's 5xx WITH a body is retried, the
+   next connection attempt overflows, and the 503 hijack headers are followed by the stale upstream body *)
+Definition src_keep_body : srcp := src_tree <| hijack_clears_body := false |>.
+Definition cfg_stale : cfg := plain_cfg <| c_retry_on := true |> <| c_pool := [PoolOk; PoolOverflow] |>.
+Definition sched_stale : list step := repeat Worker 12 ++ [Env (EvUpResp 0 503 true false)] ++ drive.
+Lemma witness_stale_body :
+  g_mixed (summ src_keep_body cfg_stale sched_stale) = true /\ g_reply_kind (summ src_keep_body cfg_stale sched_stale) = Some (KHijack, 503) /\
+  g_mixed (summ src_tree cfg_stale sched_stale) = false /\ g_reply_kind (summ src_tree cfg_stale sched_stale) = Some (KHijack, 503) /\
+  g_ended (summ src_tree cfg_stale sched_stale) = true.
+Proof. vm_compute. repeat split; reflexivity. Qed.
